@@ -81,12 +81,12 @@ theorem sliceCast_text (lhs rhs typ cast : String) :
       "for i, e := range " ++ rhs ++ "{\n" ++ lhs ++ "[i] = " ++ cast ++ "(e)\n}\n}\n" := by
   unfold renderSliceCast sliceHead; str_eq
 
-/-! ### finding: "slice field" is decided on the dynamic class of the type, so members of *named*
-slice type (`type Names []string`) are not slices for the builder and fall through to plain
-assignment, which shares the backing array (DESIGN §5 #17).  In the model: `isSliceType` looks at
-`kind = .slice` only. -/
-example : ({ tys := #[{ kind := .named, str := "p.Names", name := "Names" }], assignable := fun _ _ => true,
-             convertible := fun _ _ => true, lookup := fun _ _ => .none, scopeHas := fun _ => true,
-             pkgPath := "p", imports := [], stringTy := 0 } : Env).isSliceType 0 = false := by decide
+/-! ### "slice field" means a member whose *underlying* type is a slice: members of a defined slice
+type (`type Names []string`) are slices for the builder too (the repaired DESIGN §5 #17; before, they
+fell through to a plain assignment that shares the backing array). -/
+example : ({ tys := #[{ kind := .named, str := "p.Names", name := "Names", isSlice := true, elem := 1 }],
+             assignable := fun _ _ => true, convertible := fun _ _ => true, lookup := fun _ _ => .none,
+             scopeHas := fun _ => true, pkgPath := "p", imports := [], stringTy := 0 } : Env).isSliceType 0 = true := by
+  decide
 
 end Convergen.Props.C16
